@@ -424,9 +424,10 @@ Definition frame_resp (to_head : bool) (buf : bytes) : frp :=
 
 (* ------------------------------------------------------------------ *)
 (* re-serialisation by net/http (req.Write / resp.Write), at the level of what the
-   peer parses back: headers come out sorted by name (stable); a request without
-   User-Agent gets net/http's default one, an empty User-Agent is dropped; Pragma:
-   no-cache makes the parser add Cache-Control: no-cache *)
+   peer parses back: headers come out sorted by name (stable).  http-proxy sets an empty
+   User-Agent on a request that has none, so that Request.Write adds nothing.  The one
+   rewrite left is the parser's: "Pragma: no-cache" without Cache-Control gains
+   "Cache-Control: no-cache" (fixPragmaCacheControl in ReadRequest/ReadResponse). *)
 
 Fixpoint leb_bytes (a b : bytes) : bool :=
   match a, b with
@@ -443,15 +444,6 @@ Fixpoint insert_h (h : header) (l : list header) : list header :=
 (* stable: an element is inserted after the elements with an equal name *)
 Definition sort_headers (l : list header) : list header := fold_left (fun acc h => insert_h h acc) l [].
 
-Definition ua_fix (hs : list header) : list header :=
-  match hget S_UA hs with
-  | None => (S_UA, S_GOUA) :: hs
-  | Some [] => filter (fun h => negb (eqb_b (fst h) S_UA)) hs
-  | Some _ => hs
-  end.
-
-(* http.ReadRequest / ReadResponse (fixPragmaCacheControl): a message whose first Pragma
-   value is "no-cache" and that has no Cache-Control gets "Cache-Control: no-cache" *)
 Definition S_PRAGMA : bytes := [112;114;97;103;109;97]%N.
 Definition S_CC : bytes := [99;97;99;104;101;45;99;111;110;116;114;111;108]%N.      (* cache-control *)
 Definition S_NOCACHE : bytes := [110;111;45;99;97;99;104;101]%N.                    (* no-cache *)
@@ -463,29 +455,26 @@ Definition pragma_fix (hs : list header) : list header :=
   end.
 
 Definition reser_req (m : sem_req) : sem_req :=
-  mkReq (r_method m) (r_target m) (r_host m) (sort_headers (ua_fix (pragma_fix (r_headers m)))) (r_chunked m) (r_body m).
+  mkReq (r_method m) (r_target m) (r_host m) (sort_headers (pragma_fix (r_headers m))) (r_chunked m) (r_body m).
 
 Definition reser_resp (p : sem_resp) : sem_resp :=
   mkResp (p_status p) (sort_headers (pragma_fix (p_headers p))) (p_chunked p) (p_body p).
 
-(* what the client-side parser makes of resp.Write's output: for a reply to HEAD that
-   carries Transfer-Encoding: chunked, net/http's writer emits a stray CRLF after the
-   header block; the reply itself parses, everything after it does not *)
-Definition stray_after (to_head : bool) (p : sem_resp) : bool := to_head && p_chunked p.
-
 (* ------------------------------------------------------------------ *)
-(* the relay loop of httpProxy.Handle                                  *)
+(* the relay loop of httpProxy.Handle: ONE buffered reader per leg for the whole
+   connection (what a reader has read ahead stays available to the next message) *)
 
 Inductive citem :=
 | ISeg (s : bytes)          (* the client writes s *)
 | IWait (k : N).            (* the client waits until it has parsed k replies (gives up otherwise) *)
 
-Inductive rr := RGot (p : sem_resp) | RBad | RStall.
+(* reply, what stays in the backend-side reader's buffer, the backend's unread writes *)
+Inductive rr := RGot (p : sem_resp) (lft : bytes) (rest : list bytes) | RBad | RStall.
 
-(* reader2 := bufio.NewReader(conn2); http.ReadResponse(reader2, req) *)
+(* http.ReadResponse(reader2, req) on the connection's reader *)
 Fixpoint read_reply (to_head : bool) (buf : bytes) (segs : list bytes) : rr :=
   match frame_resp to_head buf with
-  | PComplete _ p => RGot p
+  | PComplete n p => RGot p (skipn n buf) segs
   | PBad => RBad
   | PIncomplete => match segs with
                    | [] => RStall
@@ -497,49 +486,61 @@ Inductive endk :=
 | EEof               (* client closed between requests: Handle returns nil *)
 | EPartial           (* client closed inside a request *)
 | EGaveUp            (* the client waited for a reply that never came, then closed *)
-| EBadRequest | EBadReply | EStall.
+| EBadRequest | EBadReply | EStall
+| EFuel.             (* out of fuel (excluded: drain_fuel_suffices) *)
 
 Record st := mkSt {
-  s_buf : bytes;                    (* the current client-side reader's buffer *)
-  s_replies : list (list bytes);    (* backend's reply (as segments) to the next request it receives *)
-  s_recvd : N;                      (* replies the client has parsed *)
-  s_broken : bool;                  (* the client's parser met bytes that are not a reply *)
+  s_buf : bytes;                    (* the client-side reader's buffer *)
+  s_bbuf : bytes;                   (* the backend-side reader's buffer *)
+  s_bq : list bytes;                (* what the backend has written and the proxy has not read *)
+  s_replies : list (list bytes);    (* backend's reply (as writes) to the next request it receives *)
+  s_recvd : N;                      (* replies written to (and parsed by) the client *)
   s_fwd : list sem_req;             (* requests the backend received, newest first *)
-  s_del : list sem_resp;            (* replies the client parsed, newest first *)
-  s_written : N }.                  (* replies the proxy wrote to the client *)
+  s_del : list sem_resp }.          (* replies the client received, newest first *)
 
 Definition DEFAULT_REPLY : list bytes :=
   [[72;84;84;80;47;49;46;49;32;50;48;48;32;79;75;13;10;67;111;110;116;101;110;116;45;76;101;110;103;116;104;58;32;48;13;10;13;10]%N].
 
 Definition is_head (m : sem_req) : bool := eqb_b (r_method m) S_HEAD.
 
+Definition set_buf (s : st) (b : bytes) : st :=
+  mkSt b (s_bbuf s) (s_bq s) (s_replies s) (s_recvd s) (s_fwd s) (s_del s).
+
+(* the for-loop of Handle as long as the reader's buffer holds complete requests:
+   ReadRequest, req.Write to the backend (+ event), ReadResponse, resp.Write to the client *)
+Fixpoint drain (fuel : nat) (s : st) : st * option endk :=
+  match fuel with
+  | O => (s, Some EFuel)
+  | S f =>
+      match frame_req (s_buf s) with
+      | QIncomplete => (s, None)
+      | QBad => (s, Some EBadRequest)
+      | QComplete n m =>
+          let reply := match s_replies s with [] => DEFAULT_REPLY | x :: _ => x end in
+          let s1 := mkSt (skipn n (s_buf s)) (s_bbuf s) (s_bq s ++ reply) (tl (s_replies s))
+                         (s_recvd s) (reser_req m :: s_fwd s) (s_del s) in
+          match read_reply (is_head m) (s_bbuf s1) (s_bq s1) with
+          | RBad => (s1, Some EBadReply)
+          | RStall => (s1, Some EStall)
+          | RGot p lft rest =>
+              drain f (mkSt (s_buf s1) lft rest (s_replies s1) (s_recvd s1 + 1)%N (s_fwd s1) (reser_resp p :: s_del s1))
+          end
+      end
+  end.
+
 Fixpoint run (its : list citem) (s : st) : st * endk :=
   match its with
   | [] => (s, match s_buf s with [] => EEof | _ => EPartial end)
   | IWait k :: r => if (k <=? s_recvd s)%N then run r s else (s, EGaveUp)
   | ISeg b :: r =>
-      let buf := s_buf s ++ b in
-      match frame_req buf with
-      | QIncomplete => run r (mkSt buf (s_replies s) (s_recvd s) (s_broken s) (s_fwd s) (s_del s) (s_written s))
-      | QBad => (s, EBadRequest)
-      | QComplete _ m =>
-          (* reader := bufio.NewReader(conn) is created anew: whatever else the buffer held is gone *)
-          let fwd := reser_req m :: s_fwd s in
-          let reply := match s_replies s with [] => DEFAULT_REPLY | x :: _ => x end in
-          let rest := tl (s_replies s) in
-          match read_reply (is_head m) [] reply with
-          | RBad => (mkSt [] rest (s_recvd s) (s_broken s) fwd (s_del s) (s_written s), EBadReply)
-          | RStall => (mkSt [] rest (s_recvd s) (s_broken s) fwd (s_del s) (s_written s), EStall)
-          | RGot p =>
-              let p' := reser_resp p in
-              if s_broken s
-              then run r (mkSt [] rest (s_recvd s) true fwd (s_del s) (s_written s + 1)%N)
-              else run r (mkSt [] rest (s_recvd s + 1)%N (stray_after (is_head m) p) fwd (p' :: s_del s) (s_written s + 1)%N)
-          end
+      let s1 := set_buf s (s_buf s ++ b) in
+      match drain (S (length (s_buf s1))) s1 with
+      | (s2, None) => run r s2
+      | (s2, Some e) => (s2, e)
       end
   end.
 
-Definition st0 (replies : list (list bytes)) : st := mkSt [] replies 0 false [] [] 0.
+Definition st0 (replies : list (list bytes)) : st := mkSt [] [] [] replies 0 [] [].
 
 (* req.Write streams: once the header block of a request is complete it is written to the
    backend and the body follows as it arrives.  For a request that completes this is the
@@ -581,14 +582,26 @@ Fixpoint cut (lens : list N) (l : bytes) : list bytes :=
   end.
 
 (* ------------------------------------------------------------------ *)
-(* (c) copy / dns-proxy: the switch on the concrete connection type    *)
+(* (c) copy / dns-proxy: datagram or stream is told by the connection's LOCAL ADDRESS
+   (switch conn.LocalAddr().(type)), which every wrapper passes through *)
+
+Inductive addr_kind := ATcp | AUdp | AOtherAddr.
 
 Inductive conn_kind :=
-| KTcpConn                       (* *net.TCPConn *)
-| KDummyUdp                      (* *listener.DummyUDPConn *)
-| KOther                         (* any other net.Conn: pipe, tls, agent connection *)
+| KTcpConn                       (* *net.TCPConn: *net.TCPAddr *)
+| KDummyUdp                      (* *listener.DummyUDPConn: *net.UDPAddr *)
+| KOther (a : addr_kind)         (* any other net.Conn (pipe, tls, agent connection) with that kind of address *)
 | KPeek (inner : conn_kind)      (* *server.peekConnection *)
 | KTimeout (inner : conn_kind).  (* *server.timeoutConn *)
+
+Fixpoint local_kind (k : conn_kind) : addr_kind :=
+  match k with
+  | KTcpConn => ATcp
+  | KDummyUdp => AUdp
+  | KOther a => a
+  | KPeek i => local_kind i
+  | KTimeout i => local_kind i
+  end.
 
 (* server.handle: newConn = TimeoutConn(newConn, 30s) around what findService returned
    (the accepted connection, or the peek wrapper around a timeout wrapper around it) *)
@@ -597,12 +610,11 @@ Definition server_wrap (peeked : bool) (accepted : conn_kind) : conn_kind :=
 
 Inductive branch := BUdp | BTcp | BDefault.
 
-(* switch conn.(type) { case *listener.DummyUDPConn: ... case *net.TCPConn: ... default: return nil } *)
 Definition type_switch (k : conn_kind) : branch :=
-  match k with
-  | KDummyUdp => BUdp
-  | KTcpConn => BTcp
-  | _ => BDefault
+  match local_kind k with
+  | AUdp => BUdp
+  | ATcp => BTcp
+  | AOtherAddr => BDefault
   end.
 
 Record raw_out := mkRaw {
@@ -613,22 +625,34 @@ Record raw_out := mkRaw {
 
 Definition raw_nothing : raw_out := mkRaw 0 [] [] 0.
 
-(* copy: both relaying branches io.Copy in both directions; one event when Handle returns *)
+Definition first_of (l : list bytes) : list bytes := match l with x :: _ => [x] | [] => [] end.
+
+(* copy.  Stream: io.Copy both ways (the backend sees end of stream when the client is
+   done), one event when Handle returns.  Datagram: the datagram, then one reply. *)
 Definition copy_model (k : conn_kind) (client_segs backend_segs : list bytes) : raw_out :=
   match type_switch k with
   | BDefault => raw_nothing
-  | _ => mkRaw 1 client_segs backend_segs 1
+  | BTcp => mkRaw 1 client_segs backend_segs 1
+  | BUdp => mkRaw 1 [concat client_segs] (first_of backend_segs) 1
   end.
 
-(* dns-proxy, datagram branch: one datagram forwarded (before it is parsed), the event
-   and the reply only when the datagram parses as a DNS message ([parses] = oracle:
-   miekg/dns Unpack) *)
-Definition dns_model (k : conn_kind) (datagram : bytes) (parses : bool) (reply : option bytes) : raw_out :=
+(* dns-proxy.  Datagram branch: the datagram is forwarded (before it is parsed); event and
+   reply only when it parses as a DNS message ([parses] = oracle: miekg/dns Unpack).
+   Stream branch: ONE Read of the client (its first write, no length prefix handling),
+   which must parse; it is forwarded; ONE Read of the backend is relayed back
+   ([got] = how much of the reply that single Read returned: kernel timing, an input). *)
+Definition dns_model (k : conn_kind) (client_segs : list bytes) (parses : bool)
+                     (backend_segs : list bytes) (got : nat) : raw_out :=
   match type_switch k with
   | BDefault => raw_nothing
-  | _ =>
-      if parses then mkRaw 1 [datagram] (match reply with Some r => [r] | None => [] end) 1
-      else mkRaw 1 [datagram] [] 0
+  | BUdp =>
+      if parses then mkRaw 1 [concat client_segs] (first_of backend_segs) 1
+      else mkRaw 1 [concat client_segs] [] 0
+  | BTcp =>
+      match client_segs with
+      | [] => raw_nothing
+      | q :: _ => if parses then mkRaw 1 [q] [firstn got (concat backend_segs)] 1 else raw_nothing
+      end
   end.
 
 (* ------------------------------------------------------------------ *)
@@ -692,16 +716,16 @@ Definition reqs_of (l : list smsg) : list smsg := filter is_req l.
 Definition data_of (l : list smsg) : bytes :=
   flat_map (fun m => match m with MData d => d | _ => [] end) l.
 
-(* closing: each direction is relayed by a data copier, but the goroutine that relays
-   the channel REQUESTS of the other side closes the destination channel (defer
-   dst.Close()) as soon as the source channel is closed - whatever the copier has
-   delivered by then.  [sched]: true = the copier forwards the next chunk, false = the
-   closing goroutine fires first. *)
+(* closing: each direction is relayed by a data copier (copyFn), which closes the
+   destination only after it has copied everything up to the source's end; the goroutine
+   that relays the channel REQUESTS of the other side no longer closes anything.
+   [sched]: true = the copier forwards the next chunk, false = the request goroutine's
+   loop ends (the source channel was closed) - a step without effect. *)
 Fixpoint relay_until_close (chunks : list bytes) (sched : list bool) : bytes :=
   match sched with
   | [] => concat chunks
   | true :: r => match chunks with c :: cs => c ++ relay_until_close cs r | [] => [] end
-  | false :: _ => []
+  | false :: r => relay_until_close chunks r
   end.
 
 (* TypeWriterReadCloser.sanitize, applied to what the session recording holds *)
